@@ -239,3 +239,21 @@ package decoders
 //@ ensures [line-form-keeps-nothing] imp(result1 == nil && !result_of(isArray, 0), len(result0.ammos) == 0 && calls(decoder.readArray) == 0)
 //@ ensures [starts-from-nothing] imp(result1 == nil && !result_of(isArray, 0), fresh(result0) && result0.file == file && result0.config == cfg && result0.decodedConfigHeaders == decodedConfigHeaders && result0.ammoNum == 0 && result0.passNum == 0 && result0.line == 0 && result0.pool != nil)
 //@ at call isArray assert arg(r) == file0
+
+// ---------------------------------------------------------------- preloading of each format: the shared loader over the format's own Scan
+//@ func (d *uriDecoder) LoadAmmo
+//@ props C14 C08
+//@ at call d.protoDecoder.LoadAmmo assert [the-caller-s-context-and-the-format-s-own-scan] arg(ctx) == ctx0 && arg(scan) == d.Scan
+//@ ensures [what-the-shared-loader-read] result0 == result_of(d.protoDecoder.LoadAmmo, 0) && result1 == result_of(d.protoDecoder.LoadAmmo, 1)
+//@ func (d *uripostDecoder) LoadAmmo
+//@ props C14 C08
+//@ at call d.protoDecoder.LoadAmmo assert [the-caller-s-context-and-the-format-s-own-scan] arg(ctx) == ctx0 && arg(scan) == d.Scan
+//@ ensures [what-the-shared-loader-read] result0 == result_of(d.protoDecoder.LoadAmmo, 0) && result1 == result_of(d.protoDecoder.LoadAmmo, 1)
+//@ func (d *rawDecoder) LoadAmmo
+//@ props C14 C08
+//@ at call d.protoDecoder.LoadAmmo assert [the-caller-s-context-and-the-format-s-own-scan] arg(ctx) == ctx0 && arg(scan) == d.Scan
+//@ ensures [what-the-shared-loader-read] result0 == result_of(d.protoDecoder.LoadAmmo, 0) && result1 == result_of(d.protoDecoder.LoadAmmo, 1)
+//@ func (d *jsonlineDecoder) LoadAmmo
+//@ props C14 C08
+//@ at call d.protoDecoder.LoadAmmo assert [the-caller-s-context-and-the-format-s-own-scan] arg(ctx) == ctx0 && arg(scan) == d.Scan
+//@ ensures [what-the-shared-loader-read] result0 == result_of(d.protoDecoder.LoadAmmo, 0) && result1 == result_of(d.protoDecoder.LoadAmmo, 1)
